@@ -8,6 +8,27 @@ open Avro Avro.Wire
 
 def bigFuel : Nat := 100000
 
+/-- the platform's IEEE conversions (x86-64 semantics for NaNs: payload kept, quiet bit set) -/
+def f32to64 (x : UInt32) : UInt64 :=
+  let e := (x >>> 23) &&& 0xFF
+  let m := x &&& 0x7FFFFF
+  if e == 0xFF && m != 0 then
+    ((x >>> 31).toUInt64 <<< 63) ||| ((0x7FF : UInt64) <<< 52) ||| ((m ||| 0x400000).toUInt64 <<< 29)
+  else (Float32.ofBits x).toFloat.toBits
+
+def f64to32 (x : UInt64) : UInt32 :=
+  let e := (x >>> 52) &&& 0x7FF
+  let m := x &&& 0xFFFFFFFFFFFFF
+  if e == 0x7FF && m != 0 then
+    ((x >>> 63).toUInt32 <<< 31) ||| ((0xFF : UInt32) <<< 23) ||| ((m >>> 29).toUInt32 ||| 0x400000)
+  else (Float.ofBits x).toFloat32.toBits
+
+def floatOps : FloatOps :=
+  { i2f32 := fun n => (Float32.ofInt n).toBits
+    i2f64 := fun n => (Float.ofInt n).toBits
+    f32to64 := f32to64
+    f64to32 := f64to32 }
+
 def respond (line : String) : String :=
   match parseLine line with
   -- primitives
@@ -135,6 +156,17 @@ def respond (line : String) : String :=
   | [.atom "capread", lim, n] => match atomNat? lim, atomNat? n with
     | some lim, some n => (match cappedRead lim (List.replicate n 0x55) with | .ok _ => "ok" | .error _ => "err")
     | _, _ => "bad-request"
+  | [.atom "val", lim, names, schema, value] =>
+    match atomNat? lim, parseNames names, parseSchema schema, parseValue value with
+    | some lim, some env, some s, some v => if validate floatOps { lim := lim } env bigFuel s v then "ok" else "rej"
+    | _, _, _, _ => "bad-request"
+  | [.atom "res", lim, names, schema, value] =>
+    match atomNat? lim, parseNames names, parseSchema schema, parseValue value with
+    | some lim, some env, some s, some v =>
+      (match resolve floatOps { lim := lim } env bigFuel s v with
+       | .ok w => s!"ok {showValue w}"
+       | .error e => s!"err {e}")
+    | _, _, _, _ => "bad-request"
   | [.atom "wrcheck", bsz, .list fmeta, marker, .list ops, implFile, implResS] =>
     let implRes : List Sexp := match implResS with | .list l => l | _ => []
     match atomNat? bsz, atomBytes? marker, atomBytes? implFile with
